@@ -20,7 +20,7 @@ SHRINK_KEYS = ('faults', 'directives', 'ops')
 CLIENT_ID_KEY = 'com.twitter.finagle.thrift.ClientIdContext'
 DEADLINE_KEY = 'com.twitter.finagle.Deadline'
 PAYLOADS = ['', 'x', 'hello', 'héllo', '日本語', 'a' * 40, '\U0001f600ok', ' ']
-PROP_KEYS = ['trace', 'kéy', 'com.example.ctx', 'e']
+PROP_KEYS = ['trace', 'kéy', 'com.example.ctx', 'e', '_span', '_']
 PROP_VALS = ['', 'v', 'välue', '☃', 'plain-ascii-value']
 RES = 0.01
 
@@ -86,7 +86,8 @@ def generate(rng, tier='quick', stack=None, focus='general', **kw):
   scn['cfg'] = cfg
   scn['net'] = {'chunk': rng.choice(['none', 'some', 'some', 'bytes']),
                 'jitter': rng.choice([0.0, 0.0002, 0.001]),
-                'dns_multi': rng.random() < 0.1}
+                'dns_multi': rng.random() < 0.1,
+                'io_errno': rng.choice(['reset', 'reset', 'reset', 'timedout', 'hostunreach'])}
   scn['loop'] = {'batch_break': rng.choice([False, False, False, False, False, True, True, 0.02, 0.1, 0.3])}
   if rng.random() < 0.1:
     # a stalled process: the clock jumps forward between loop iterations; the
@@ -165,7 +166,9 @@ def generate(rng, tier='quick', stack=None, focus='general', **kw):
       op['method'] = 'join'
       op['join'] = {'t': rng.choice(['', '', 'x', 'héllo']), 'n': rng.choice([0, 0, 7, -1]),
                     'f': rng.choice([False, False, True]), 'kw': rng.choice(['none', 'some', 'all'])}
-    if rng.random() < 0.02 and m in ('echo', 'poke', 'hi', 'relay'):
+    elif m == 'echo' and not any(o['method'] == 'whoami' for o in ops) and rng.random() < 0.08:
+      op['method'] = 'whoami'        # no arguments at all (at most one per scenario: it cannot carry its id)
+    if rng.random() < 0.02 and m in ('echo', 'poke', 'hi', 'relay') and op['method'] == m:
       op['badarg'] = True          # an argument the Thrift codec cannot serialise: fails before the wire
     elif rng.random() < 0.02 and scn['net']['chunk'] != 'bytes':
       op['payload'] = 'L' * rng.choice([5000, 9000])     # larger than one send() takes
@@ -523,6 +526,28 @@ def generate_c09(rng, tier='quick', stack=None, **kw):
     scn['directives'] = []
     scn['horizon_extra'] = res['max_wait_interval'] + 6.0
     scn['c09'] = {'spacing': 1.0, 'last_heal': 0.0, 'end': t0 + 4.0}
+    return scn
+  if rng.random() < 0.1:
+    # the endpoint is reachable all along, but the first connection to it dies
+    # after the TCP connect, while the first answer (ThriftMux: the handshake
+    # ping) is being read: reset, end of stream, or silence.  The client has to
+    # treat that like any other failure: retry and use the endpoint again.
+    e = rng.randrange(n_eps)
+    spacing = rng.choice([0.5, 1.0])
+    end = res['max_wait_interval'] + 10.0 + 45 * spacing
+    ops = []
+    tt, i = 0.0, 0
+    while tt < end and i < 260:
+      ops.append({'t': round(tt, 4), 'op': 'call', 'id': 'c%d' % i, 'method': rng.choice(['echo', 'risky']),
+                  'payload': 'x', 'timeout': None, 'svc': {'delay': 0.005}, 'via': 'dispatch'})
+      tt += spacing
+      i += 1
+    scn['ops'] = ops
+    scn['faults'] = []
+    scn['directives'] = [{'ep': e, 'conn': 0, 'op': 'recv', 'index': None, 'nth': 1,
+                          'kind': rng.choice(['eof', 'exc', 'silence'])}]
+    scn['horizon_extra'] = 4.0
+    scn['c09'] = {'spacing': spacing, 'last_heal': 0.0, 'end': end, 'always_up': [e]}
     return scn
   faults = []
   t = rng.choice([0.0, 0.0, 0.5, 3.0])
